@@ -248,7 +248,7 @@ def run_shard(pid, facet: Facet, tier, seed, shard, nshards) -> dict:
         bad = rec.unlisted()
         if bad:
             v = PropertyViolation(bad[0][0], bad[0][1], case)
-            if time.time() - t_case > 4.0 and not facet.enumerative:
+            if (time.time() - t_case > 4.0 or getattr(facet, "report_unshrunk", False)) and not facet.enumerative:
                 raise SlowViolation(v)
             raise v
 
